@@ -246,17 +246,21 @@ func (env *SpecEnv) findPackage(name string) *types.Package {
 }
 
 func (env *SpecEnv) resolveType(name string) (types.Type, error) {
-	ptr := 0
-	for strings.HasPrefix(name, "*") {
-		ptr++
-		name = name[1:]
+	name = strings.TrimSpace(name)
+	if strings.HasPrefix(name, "*") {
+		t, err := env.resolveType(name[1:])
+		if err != nil {
+			return nil, err
+		}
+		return types.NewPointer(t), nil
 	}
-	slice := false
 	if strings.HasPrefix(name, "[]") {
-		slice = true
-		name = name[2:]
+		t, err := env.resolveType(name[2:])
+		if err != nil {
+			return nil, err
+		}
+		return types.NewSlice(t), nil
 	}
-	var t types.Type
 	if k := strings.Index(name, "."); k >= 0 {
 		pkg := env.findPackage(name[:k])
 		if pkg == nil {
@@ -266,40 +270,31 @@ func (env *SpecEnv) resolveType(name string) (types.Type, error) {
 		if obj == nil {
 			return nil, fmt.Errorf("unknown type %s", name)
 		}
-		t = obj.Type()
-	} else {
-		switch name {
-		case "int":
-			t = types.Typ[types.Int]
-		case "string":
-			t = types.Typ[types.String]
-		case "bool":
-			t = types.Typ[types.Bool]
-		case "rune":
-			t = types.Typ[types.Rune]
-		case "byte":
-			t = types.Typ[types.Byte]
-		case "error":
-			t = types.Universe.Lookup("error").Type()
-		default:
-			pkg := env.pkgOf()
-			if pkg == nil {
-				return nil, fmt.Errorf("unknown type %s", name)
-			}
-			obj := pkg.Scope().Lookup(name)
-			if obj == nil {
-				return nil, fmt.Errorf("unknown type %s", name)
-			}
-			t = obj.Type()
-		}
+		return obj.Type(), nil
 	}
-	if slice {
-		t = types.NewSlice(t)
+	switch name {
+	case "int":
+		return types.Typ[types.Int], nil
+	case "string":
+		return types.Typ[types.String], nil
+	case "bool":
+		return types.Typ[types.Bool], nil
+	case "rune":
+		return types.Typ[types.Rune], nil
+	case "byte":
+		return types.Typ[types.Byte], nil
+	case "error":
+		return types.Universe.Lookup("error").Type(), nil
 	}
-	for i := 0; i < ptr; i++ {
-		t = types.NewPointer(t)
+	pkg := env.pkgOf()
+	if pkg == nil {
+		return nil, fmt.Errorf("unknown type %s", name)
 	}
-	return t, nil
+	obj := pkg.Scope().Lookup(name)
+	if obj == nil {
+		return nil, fmt.Errorf("unknown type %s", name)
+	}
+	return obj.Type(), nil
 }
 
 func (env *SpecEnv) selector(x *SExpr) (sval, error) {
